@@ -417,9 +417,52 @@ def resume():
     _saved.clear()
 
 
+_pristine = {}
+
+
+def _toolkit_modules():
+    for name, mod in list(sys.modules.items()):
+        f = getattr(mod, "__file__", None) or ""
+        if f.startswith(TOOLKIT) and not os.path.basename(f).startswith("test_"):
+            yield name, mod
+
+
+def reset_toolkit_state():
+    """A world must not inherit anything from the worlds built before it in the same process.  Instances are
+    fresh, but mutable objects hanging off toolkit *classes* and *modules* (class-level lists, module-level
+    caches) would leak from one execution into the next: the first time a module is seen, deep copies of its
+    mutable class/module attributes are taken; before every new world they are put back."""
+    import copy
+    import types
+    mutable = (list, dict, set, bytearray, collections.deque)
+    for name, mod in _toolkit_modules():
+        if name not in _pristine:
+            snap = []
+            for k, v in list(vars(mod).items()):
+                if isinstance(v, mutable) and not k.startswith("__"):
+                    snap.append((mod, k, copy.deepcopy(v)))
+                elif isinstance(v, type) and getattr(v, "__module__", None) == name:
+                    for ck, cv in list(vars(v).items()):
+                        if isinstance(cv, mutable) and not ck.startswith("__"):
+                            try:
+                                snap.append((v, ck, copy.deepcopy(cv)))
+                            except Exception:
+                                pass
+            _pristine[name] = snap
+        else:
+            for owner, k, v in _pristine[name]:
+                try:
+                    cur = getattr(owner, k, None)
+                    if type(cur) is type(v) and cur != v:
+                        setattr(owner, k, copy.deepcopy(v))
+                except Exception:
+                    pass
+
+
 def new_fabric():
     """Fresh fabric for a fresh world (previous sockets are forgotten)."""
     global _fabric
+    reset_toolkit_state()
     _fabric = Fabric()
     FakeThread.instances = []
     capture.reset()
